@@ -594,9 +594,8 @@ PROPS_EXTRA['C16']['harness_cfgs'] = ['default', 'simd']
 # (Thm/C11EncTerm.lean).  Overrides of the entries above.
 PROPS_EXTRA['C12']['thm_modules'] = ['EncodingRs.Thm.C12', 'EncodingRs.Thm.C12Hist', 'EncodingRs.Thm.C12State']
 PROPS_EXTRA['C12']['partial'] = [
-    'call histories are covered by theorems now (Thm/C12Hist.lean, Thm/C12State.lean: history_output_prefix, complete_history_output, has_pending_iff_history / has_pending_iff_repl_history); the histories are over the encoder MODEL (EHist / EReplHist: Model.erunI / Model.encRepl calls with arbitrary stop budgets) - that every call of the implementation is such a call is the enc correspondence',
+    'call histories are covered by theorems now (Thm/C12Hist.lean, Thm/C12State.lean: history_output_prefix, complete_history_output, has_pending_iff_history / has_pending_iff_repl_history, history_decodes_complete); the histories are over the encoder MODEL (EHist / EReplHist: Model.erunI / Model.encRepl calls with arbitrary stop budgets) - that every call of the implementation is such a call is the enc correspondence',
     'raw API: the byte stream considered is the manual procedure (bytes + the numeric character reference appended at each Unmappable; history_output_prefix_raw) or a history in which nothing was reported unmappable so far (history_output_prefix_no_unmappable); a caller who writes NOTHING (or something else) for Unmappable produces a different stream, which output / expected do not describe (example at the end of Thm/C12Hist.lean) - that such a stream still decodes without error is checked by the harness oracle only',
-    'at a call boundary inside a character (after an escape sequence) the theorems give: the bytes so far are accepted, the decoder is in the escape state of the encoder, has_pending_state() <-> not ASCII; that an end of stream at exactly that point is no decoder error (eof d = none) is proved at character boundaries (prefix_decodes_clean) only',
 ]
 PROPS_EXTRA['C12']['assumptions'] = [a for a in PROPS_EXTRA['C12']['assumptions'] if not a.startswith('the byte stream is the one produced with replacement')] + [
     'the byte stream is the one produced with replacement (encode_from_utf8/utf16) or by the documented manual procedure over the raw API: every Unmappable(u) is followed by ncr u (subst = C09Enc.manualBytes, manualBytes_eq_subst; = C03 erefHtml, output_eq_erefHtml)',
@@ -604,7 +603,7 @@ PROPS_EXTRA['C12']['assumptions'] = [a for a in PROPS_EXTRA['C12']['assumptions'
 ]
 MANIFEST_TEXT_EXTRA['C12']['text'] = MANIFEST_TEXT_EXTRA['C12']['text'].replace(
     ' Proof: generic feedAll_ref',
-    ' Call histories (Thm/C12Hist.lean, Thm/C12State.lean): history_output_prefix / history_output_prefix_raw - for each of the 40 encodings, every text and EVERY history of encode_from_utf8/utf16 calls (EReplHist) resp. raw calls with the manual procedure (EHist) made so far - any chunks, source forms, capacities, stop decisions, ending after ANY call, e.g. one that returned OutputFull between an ISO-2022-JP escape sequence and its character - the bytes written so far are a byte prefix of the reference output (output v text = bytes ++ reference output of what is left from the current state: hist_sound / repl_hist_sound on top of C04 erunI_sound and C09Enc encRepl_sound) and hence decode, followed by anything, without an error event to a prefix of expected v text; complete_history_output(_raw) / boundary_of_complete_history: after the final call of a protocol-following history (C09Enc EReplProto / C04 EProto) the bytes are exactly output v text and decode to expected v text; manualBytes_eq_subst / output_eq_manual / output_eq_erefHtml connect output with C09 manualBytes and C03 erefHtml; has_pending_iff_history / has_pending_iff_repl_history: after every call of every ISO-2022-JP history the decoder accepts the bytes so far and is in the escape state of the encoder (Corr\'), has_pending_state() <-> that state is not ASCII - via hist_pos (after any history the events are the unstopped run over a text prefix followed by a partial processing of the next character, Mid, or by the end-of-stream block), iso_mid_cases (inside a character at most one escape sequence, the one into the current state), iso_esc_feed, and repl_hist_is_hist / go_hist (a history of with-replacement calls IS a history of raw calls whose manual-procedure bytes are the bytes written); final_not_pending. Proof: generic feedAll_ref')
+    ' Call histories (Thm/C12Hist.lean, Thm/C12State.lean): history_output_prefix / history_output_prefix_raw - for each of the 40 encodings, every text and EVERY history of encode_from_utf8/utf16 calls (EReplHist) resp. raw calls with the manual procedure (EHist) made so far - any chunks, source forms, capacities, stop decisions, ending after ANY call, e.g. one that returned OutputFull between an ISO-2022-JP escape sequence and its character - the bytes written so far are a byte prefix of the reference output (output v text = bytes ++ reference output of what is left from the current state: hist_sound / repl_hist_sound on top of C04 erunI_sound and C09Enc encRepl_sound) and hence decode, followed by anything, without an error event to a prefix of expected v text; complete_history_output(_raw) / boundary_of_complete_history: after the final call of a protocol-following history (C09Enc EReplProto / C04 EProto) the bytes are exactly output v text and decode to expected v text; manualBytes_eq_subst / output_eq_manual / output_eq_erefHtml connect output with C09 manualBytes and C03 erefHtml; has_pending_iff_history / has_pending_iff_repl_history: after every call of every ISO-2022-JP history the decoder accepts the bytes so far and is in the escape state of the encoder (CorrW), has_pending_state() <-> that state is not ASCII - via hist_pos (after any history the events are the unstopped run over a text prefix followed by a partial processing of the next character, Mid, or by the end-of-stream block), iso_mid_cases (inside a character at most one escape sequence, the one into the current state), iso_esc_feed, and repl_hist_is_hist / go_hist (a history of with-replacement calls IS a history of raw calls whose manual-procedure bytes are the bytes written); final_not_pending; history_decodes_complete(_raw): for all 40 encodings the bytes written so far by any history, taken on their own as a COMPLETE stream, decode without any error event - none at the end of the stream either, also when the history stops between an escape sequence and its character - to a prefix of expected v text. Proof: generic feedAll_ref')
 MANIFEST_TEXT_EXTRA['C12']['note'] = (
     'Trusted additionally: native_decide for 42 finite per-character obligations (listed in the evidence); the decoder families and ncr are hand models tied by the dec / enc correspondences. '
     'The reference-run theorems are lifted to every call history of the encoder model, raw and with replacement (C12Hist, C12State); the model calls are tied to the implementation by the enc correspondence and the real-decoder oracle after every call.')
